@@ -512,6 +512,25 @@ def _sim_rng(obj):
     return obj._rng
 
 
+def documented_attributes(klass) -> set[str]:
+    """names listed in the "Attributes" section of the class docstring (numpydoc)"""
+    doc = klass.__dict__.get("__doc__") or ""
+    out, inside = set(), False
+    lines = doc.splitlines()
+    for i, ln in enumerate(lines):
+        t = ln.strip()
+        if t in ("Attributes", "Attributes:"):
+            inside = True
+            continue
+        if inside and i + 1 < len(lines) and set(lines[i + 1].strip()) == {"-"} and t and t != "Attributes":
+            inside = False      # next section header
+        if inside and ":" in t and not t.startswith("-"):
+            name = t.split(":", 1)[0].strip()
+            if name.isidentifier():
+                out.add(name)
+    return out
+
+
 def read_setting(obj, s: dict):
     if s.get("special") == "rng_state":
         return _sim_rng(obj).bit_generator.state
@@ -737,6 +756,21 @@ def extract(cls: type) -> dict:
         if is_driver and a == "atoms":
             continue
         add_tunable(a, a, False, v)
+    # class-level attributes that the class's own docstring lists under "Attributes" (ForceBias.gamma_max_value): the user
+    # tunes them on the instance, they are configuration like any other — unless annotated ClassVar (per-class tables)
+    for klass in type(obj).__mro__:
+        if not getattr(klass, "__module__", "").startswith("quansino"):
+            continue
+        documented = documented_attributes(klass)
+        ann = getattr(klass, "__annotations__", {})
+        for a, v in list(vars(klass).items()):
+            if a.startswith("_") or a not in documented or (False, a) in taken:
+                continue
+            if callable(v) or isinstance(v, (property, classmethod, staticmethod)) or "ClassVar" in str(ann.get(a, "")):
+                continue
+            if a in EXCLUDED or (is_driver and a in DRIVER_EXCLUDED):
+                continue
+            add_tunable(a, a, False, getattr(obj, a))
     if is_driver:
         for a in prop_names:
             if a in DRIVER_EXCLUDED:
